@@ -448,7 +448,11 @@ func (w *world) settle() {
 			continue
 		}
 		r.Q, r.QT = now, now
-		if r.DSOnly || r.Level == 0 {
+		// Level 1 is never narrowed: the root's keys are the resolver's
+		// in-memory trust anchors, so a "./DNSKEY" query is not a step of a
+		// resolution tree at all — it comes from the trust-anchor refresh
+		// (RFC 5011), which runs next to everything else.
+		if r.DSOnly || r.Level < 2 {
 			continue
 		}
 		if !cleanKnown {
